@@ -37,12 +37,16 @@ MANIFEST = {
     "note": "Trusted: Lean kernel (axioms propext, Classical.choice, Quot.sound), the correspondence harness, hashlib/hmac (MD5, SHA-1, SHA-2, "
             "HMAC of CPython/OpenSSL), the harness' own reference implementations (validated against the published vectors on every run), "
             "the OpenSSL CLI for 3DES-CBC. Block ciphers and hashes are PARAMETERS of the proved theorems (only output lengths and D(E b)=b are "
-            "assumed); for the AES core (rijndael.py) the GENERATED tables S, Si, T1..T8, U1..U4, rcon are proved to be the FIPS-197 S-box, its inverse, "
-            "the (Inv)MixColumns columns and x^i over the whole tables, and the table-driven ENCRYPTION rounds on any given key schedule are proved to be "
-            "the FIPS-197 Cipher with those round keys (aes_encrypt_rounds_eq_spec_partial); NOT proved: the key-schedule loops = KeyExpansion and the "
-            "decryption direction (equivalent inverse cipher) — for those an executable Lean transliteration and an executable Lean FIPS-197 are both tied by "
-            "correspondence (random blocks, FIPS-197 appendix C, an independent Python FIPS-197); single DES is not modelled at all and "
-            "3DES-CBC is tied against the OpenSSL CLI. "
+            "assumed); for the AES core (rijndael.py, block size 16) the GENERATED tables S, Si, T1..T8, U1..U4, rcon are proved to be the FIPS-197 "
+            "S-box, its inverse (also as inverse-affine + inverse), the (Inv)MixColumns columns and x^i over the whole tables, and on top of them: "
+            "the key-schedule loops of __init__ = KeyExpansion for 16/24/32-byte keys (incl. the Nk=8 extra SubWord and the truncated last pass), "
+            "encrypt = Cipher(KeyExpansion key) (aes_encrypt_eq_spec), the decryption schedule Kd = the modified schedule of FIPS-197 5.3.5, "
+            "decrypt = InvCipher via the equivalent inverse cipher (aes_decrypt_eq_spec; InvMixColumns linear, InvSubBytes/InvShiftRows commute), "
+            "and decrypt(encrypt(b)) = b (aes_decrypt_encrypt), for every key and block. The AES Lean model is an executable transliteration tied "
+            "to rijndael.py by correspondence (random blocks, FIPS-197 appendix C, an independent Python FIPS-197); block sizes 24/32 of rijndael.py "
+            "are not modelled (tlslite only uses 16). Single DES is NOT modelled or proved: 3DES-CBC is tied against the OpenSSL CLI and two "
+            "recorded OpenSSL vectors (growth choice: AES decryption was done instead of DES, whose FIPS 46-3 tables would have had to be copied "
+            "rather than derived). "
             "Named excluded regions (hypotheses): ChaCha20 block counter above 2^32 (code neither wraps nor raises); CTR counter field reaching "
             "all-ones (code raises OverflowError one step early: proved); GCM more than 2^32-2 blocks (128-bit increment vs inc32); "
             "PRF_SSL beyond 416 bytes (code returns zeros); HKDF L > 255*HashLen raises (proved); CCM message >= 2^24 bytes. "
@@ -1956,7 +1960,7 @@ def run(ctx):
                        "ChaCha20 block counter stays below 2^32 (code neither wraps nor raises beyond; model follows the code there)"]
     import shutil
     ctx.extra["openssl_cli_for_3des"] = bool(shutil.which("openssl") or __import__("os").path.exists("/root/miniconda/bin/openssl"))
-    ctx.extra["not_proved"] = ["AES key schedule = KeyExpansion and AES decryption = InvCipher (tables and encryption rounds proved, rest by correspondence)",
+    ctx.extra["not_proved"] = ["AES: fully proved against FIPS-197 for block size 16 (model tied to rijndael.py by correspondence)",
                                "single DES (not modelled; 3DES-CBC against OpenSSL)"]
     W = Work(ctx)
     for _rep in range(ctx.pick(1, 3)):          # thorough: three passes with fresh random keys / messages / splits
